@@ -209,6 +209,115 @@ func (t *rrTemplate) must(owner string, ttl uint32, variant int) dns.RR {
 
 var shapes = []string{"answer", "answer-opt", "cname-chain", "answer-2opt", "nodata", "nxdomain", "servfail", "big"}
 
+// respShape is one point of the systematic response-shape space: the rcode,
+// how many records each section carries (0 = the section is empty), how many
+// OPT pseudo-records are added to the additional section, and whether the
+// response carries the question / the TC bit. Spelled "rc<rcode>:<an><ns><ex>:o<opts>[:q0][:tc]",
+// e.g. "rc2:000:o0" is a bare SERVFAIL, "rc3:000:o1" an NXDOMAIN that carries
+// nothing but an OPT, "rc0:100:o0" an answer without authority/additional.
+// Unlike the named shapes above these messages carry NO marker record: a
+// record-less shape really has zero records.
+type respShape struct {
+	Rcode      int
+	An, Ns, Ex int
+	Opts       int
+	NoQ, TC    bool
+}
+
+func (s respShape) String() string {
+	out := fmt.Sprintf("rc%d:%d%d%d:o%d", s.Rcode, s.An, s.Ns, s.Ex, s.Opts)
+	if s.NoQ {
+		out += ":q0"
+	}
+	if s.TC {
+		out += ":tc"
+	}
+	return out
+}
+
+func (s respShape) records() int { return s.An + s.Ns + s.Ex }
+
+func parseShape(str string) (respShape, bool) {
+	var s respShape
+	if !strings.HasPrefix(str, "rc") {
+		return s, false
+	}
+	parts := strings.Split(str[2:], ":")
+	if len(parts) < 3 || len(parts[1]) != 3 || len(parts[2]) != 2 || parts[2][0] != 'o' {
+		return s, false
+	}
+	if _, err := fmt.Sscanf(parts[0], "%d", &s.Rcode); err != nil || s.Rcode < 0 || s.Rcode > 15 {
+		return s, false
+	}
+	d := func(c byte) int { return int(c - '0') }
+	s.An, s.Ns, s.Ex, s.Opts = d(parts[1][0]), d(parts[1][1]), d(parts[1][2]), d(parts[2][1])
+	for _, v := range []int{s.An, s.Ns, s.Ex, s.Opts} {
+		if v < 0 || v > 9 {
+			return s, false
+		}
+	}
+	for _, f := range parts[3:] {
+		switch f {
+		case "q0":
+			s.NoQ = true
+		case "tc":
+			s.TC = true
+		default:
+			return s, false
+		}
+	}
+	return s, true
+}
+
+// cachedOnReferenceTree tells whether the unchanged cache plugin stores a
+// response of this shape (all generated TTLs are > 0). It is NOT part of the
+// oracle: the property does not say what must be cached. It only decides
+// whether a miss right after the store is bookkeeping ("this shape is not
+// cached") or means the monitor lost its object of study (inconclusive).
+func (s respShape) cachedOnReferenceTree() bool {
+	if s.NoQ || s.TC {
+		return false
+	}
+	switch s.Rcode {
+	case dns.RcodeNameError, dns.RcodeServerFailure:
+		return true
+	case dns.RcodeSuccess:
+		return s.records() > 0
+	}
+	return false
+}
+
+// shapeSpace enumerates the response-shape space: every rcode x every
+// combination of empty / non-empty sections x 0..2 OPT records for the rcodes
+// a cache may reasonably keep (NOERROR, SERVFAIL, NXDOMAIN: these get the full
+// mutation cycle), and one probe per section combination for every other rcode,
+// for question-less and for truncated responses.
+func shapeSpace() (full []respShape, probes []respShape) {
+	occ := [][3]int{{0, 0, 0}, {1, 0, 0}, {0, 1, 0}, {0, 0, 1}, {2, 1, 0}, {1, 0, 2}, {0, 2, 1}, {2, 2, 2}}
+	for _, rc := range []int{dns.RcodeSuccess, dns.RcodeServerFailure, dns.RcodeNameError} {
+		for _, o := range occ {
+			for opts := 0; opts <= 2; opts++ {
+				full = append(full, respShape{Rcode: rc, An: o[0], Ns: o[1], Ex: o[2], Opts: opts})
+			}
+		}
+	}
+	for rc := 0; rc <= 15; rc++ {
+		for i, o := range occ {
+			sh := respShape{Rcode: rc, An: o[0], Ns: o[1], Ex: o[2], Opts: (rc + i) % 3}
+			switch rc {
+			case dns.RcodeSuccess, dns.RcodeServerFailure, dns.RcodeNameError:
+				q0, tc := sh, sh
+				q0.NoQ = true
+				tc.TC = true
+				probes = append(probes, q0, tc)
+			default:
+				probes = append(probes, sh)
+			}
+		}
+	}
+	return
+}
+
 var ttlChoices = []uint32{60, 61, 299, 300, 3600, 86400, 604800, 2147483647, 4294967295}
 
 func pickTTL(rng *rand.Rand) uint32 { return ttlChoices[rng.Intn(len(ttlChoices))] }
@@ -251,6 +360,34 @@ func buildMsg(t *rrTemplate, sp msgSpec, q *dns.Msg) *dns.Msg {
 	name := sp.Name
 	zone := "example.net."
 	v := sp.Version
+	if sh, ok := parseShape(sp.Shape); ok {
+		// systematic shape space: no marker record. Versions of one answer differ
+		// in their record data (variant v) and, so that record-less versions are
+		// distinguishable too, in the AA/AD/RA header bits.
+		sb := int(sp.Seed>>7) & 7
+		m.Authoritative = (v^sb)&1 != 0
+		m.AuthenticatedData = ((v>>1)^(sb>>1))&1 != 0
+		m.RecursionAvailable = ((v>>2)^(sb>>2))&1 == 0
+		m.Rcode = sh.Rcode
+		m.Truncated = sh.TC
+		if sh.NoQ {
+			m.Question = nil
+		}
+		for i := 0; i < sh.An; i++ {
+			m.Answer = append(m.Answer, t.must(name, ttl(), v+i))
+		}
+		for i := 0; i < sh.Ns; i++ {
+			if i == 0 {
+				m.Ns = append(m.Ns, mustRR(fmt.Sprintf("%s %d IN SOA ns.%s hostmaster.%s %d 7200 3600 1209600 300", zone, ttl(), zone, zone, 1000+v)))
+			} else {
+				m.Ns = append(m.Ns, t.must("ns-sec."+zone, ttl(), v+i))
+			}
+		}
+		for i := 0; i < sh.Ex; i++ {
+			m.Extra = append(m.Extra, t.must(fmt.Sprintf("extra%d.%s", i, zone), ttl(), v+i))
+		}
+		return m
+	}
 	switch sp.Shape {
 	case "answer", "answer-opt", "answer-2opt":
 		n := 1 + rng.Intn(3)
@@ -317,6 +454,9 @@ func makeOPT(rng *rand.Rand) *dns.OPT {
 // additional section, or two).
 func addOPTs(m *dns.Msg, shape string, rng *rand.Rand) int {
 	n := 0
+	if sh, ok := parseShape(shape); ok {
+		n = sh.Opts
+	}
 	switch shape {
 	case "answer-opt", "nodata", "big":
 		n = 1
